@@ -29,7 +29,16 @@ def bootstrap():
     return ascmhl
 
 
+_SB = []
+
+
 def scratch_base():
+    if not _SB:
+        _SB.append(_scratch_base())
+    return _SB[0]
+
+
+def _scratch_base():
     b = os.environ.get("VERIF_SCRATCH")
     if b:
         os.makedirs(b, exist_ok=True)
